@@ -23,7 +23,7 @@ META={
    "Every one of the 256 byte values is placed at every position of short text bases (inside, last-inside and just outside the examined header), BOMs / BOM prefixes / near misses are combined with binary bytes, and every corpus seed is run alone, BOM-prefixed, sanitised and re-injected; DetectFile on procfs files (stat size 0) and temp files; each real detection result is judged by a byte-class predicate written from the statement."+HELD,
    "Trusted: the hard-coded byte ranges / BOM table of the oracle."),
  "C08":M("exploration","C08","generated RFC 8259 documents (validated by encoding/json) detected at every cut point; oracle = membership in the JSON family with a priority-exception rule from the tree snapshot",
-   "Random and hostile valid documents (strings starting/ending with structural characters, escapes, multi-byte runes, all number spellings, 3 whitespace layouts) are detected at EVERY limit from the opening bracket to len+1 and 0, long documents around the default limit, nesting ladders to 4096; entry points Detect / oddly chunked DetectReader / DetectFile, and a reader that changes the limit from inside Read."+HELD,
+   "Random and hostile valid documents (strings starting/ending with structural characters, escapes, multi-byte runes, all number spellings, 3 whitespace layouts) are detected at EVERY limit from the opening bracket to len+1 and 0, long documents around the default limit, nesting ladders to 4096; entry points Detect / oddly chunked DetectReader / DetectFile, and a reader that changes the limit from inside Read; every printable literal of the tree's source as a string / key at signature offsets. A higher-priority verdict is an exception only if the bytes carry that format's pinned signature."+HELD,
    "Trusted: encoding/json.Valid; sibling order from the snapshot for the exception clause (that the higher-priority node really matched is C03)."),
  "C09":M("exploration","C09","bounded-exhaustive enumeration + mutation against an independent reference recogniser of the relaxed JSON language",
    "ALL token sequences up to 6 (quick) / 7 (thorough) tokens over a 16-token JSON alphabet, whole and truncated modes, through Detect and the JSON signature check directly, plus mutated valid documents; a JSON-family verdict must imply Complete (whole) / not Fail (prefix) per the reference recogniser."+HELD+" exhaustive for the stated alphabet and length only.",
@@ -38,7 +38,7 @@ META={
    "One declaration in 9 HTML syntaxes / XML prologue variants after 13 openings, decoys (comments, script/style/title/textarea with fake metas, non-pragma metas), optional >4 KiB token, BOM; every token character and 35 real labels; limits incl. exactly the end of the declaration; a generated document not reported as HTML / XML at all is a violation too."+HELD,
    "Trusted: labels exclude '&' and quotes; XML '=' whitespace, BOM+XML and target case are informational only."),
  "C13":M("exploration","C13","generated tables / NDJSON streams at every limit (forward) and damaged tables / line soups judged per line by the reference recogniser (converse)",
-   "Rectangular CSV/TSV tables and NDJSON streams are detected at EVERY limit from just past the second line to len; tables with one damaged complete line and line soups with malformed lines must not be reported."+HELD,
+   "Rectangular CSV/TSV tables and NDJSON streams are detected at EVERY limit from just past the second line to len; tables with one damaged complete line (up to 530 rows) and line soups with malformed lines must not be reported; markup-like first cells; a verdict of another text format needs that format's pinned signature."+HELD,
    "Trusted: refjson for per-line completeness; 'complete line' = newline-terminated inside a cut header; comment-line dialect per the converse clause."),
  "C14":M("exploration","C14","model-based checking of Extend histories (independent walk + harness-side extension list), Lookup and earlier-value checks, fresh-process histories, concurrent registration rounds",
    "Thousands of random Extend histories (root, built-ins at any depth by name or alias, earlier extensions; 9 predicate kinds) are applied to the library and mirrored in the model; ~80 inputs x 3 limits per history are compared with the model and with the pre-history baseline, every name/alias is looked up (before and after registration; names and extensions are sometimes re-used; a registered name that is no longer found is a violation), values returned mid-history are re-read; a sample of histories runs in fresh processes without the reset hook; detections go through Detect, oddly chunked DetectReader and DetectFile."+HELD,
@@ -53,7 +53,7 @@ META={
    "Every seed, seeds with tails, mutants and structured inputs whose deciding bytes lie at offsets given by length fields (ID3, CRX, tar members, OLE, Matroska, zip, fixed-offset signatures) are detected at every limit; seeds' magic numbers followed by every literal of the signature packages (read from the tree under test); DetectReader with limits next to 2^32; once binary, every larger limit must be binary."+HELD,
    "Trusted: class definition (text = text/plain in the chain); limits between sparse sample points are not executed."),
  "C18":M("exploration","C18","archive/tar as conforming writer + exhaustive single-byte corruption of the first block per archive",
-   "Random headers over USTAR/PAX/GNU (hostile names, base-256 ids and sizes, all type flags) written by archive/tar must be reported as tar unless a higher-priority root format matches; then all 504 x 255 single-byte corruptions outside the checksum field must not be tar."+HELD+" One known finding (gpkg exclusion) is replayed and listed.",
+   "Random headers over USTAR/PAX/GNU (hostile names, base-256 ids and sizes, all type flags) written by archive/tar must be reported as application/x-tar (the reported type itself) unless a higher-priority root format's pinned signature is carried by the leading bytes; member names and member data carry other formats' signatures; then all 504 x 255 single-byte corruptions outside the checksum field must not be tar."+HELD+" One known finding (gpkg exclusion) is replayed and listed.",
    "Trusted: archive/tar; names ending in /gpkg-1 are excluded from generation (KNOWN_FINDINGS)."),
  "C19":M("exploration","C19","archive/zip as writer AND reader: verdict predicted from the read-back entry list, 6 writer layouts per entry",
    "Generated entry lists (OOXML bookkeeping, markers at positions 2-10, near misses incl. every marker in other letter cases, directory entries, JAR/APK/ODF/EPUB, unrelated) written with 6 per-entry layouts (descriptor / sizes, store / deflate, extra field, directories) incl. an aliasing body family; P1 P2 P3 N1 N2 and the application/zip parent are decided from zip.Reader's names."+HELD,
